@@ -48,7 +48,7 @@ const (
 // A dividend row whose Anzahl is the number of shares and whose Stückpreis is the
 // dividend per share (Nettobetrag = Anzahl x Stückpreis - Kosten). The golden input only
 // shows Anzahl 1.0; this kind is reported under its own key (dividende-per-share).
-const c13SwissquotePerShareDividend = true
+const c13SwissquotePerShareDividend = false
 
 var (
 	c13TextsAll    = []string{"abc", `a "quoted" b`, "semi;colon", "comma, x", "Zürich — ☕", ""}
